@@ -1,4 +1,5 @@
 import Driver.Sparse
+import Driver.CSparse
 import Driver.Markers
 import Driver.Exit
 import Driver.Refs
@@ -21,6 +22,7 @@ def main (args : List String) : IO UInt32 := do
   let stdin ← IO.getStdin
   let stdout ← IO.getStdout
   match args with
+  | "csparse" :: rest => Driver.CSparse.run (rest.headD "float") stdin stdout; return 0
   | "sparse" :: rest => Driver.Sparse.run (rest.headD "float") stdin stdout; return 0
   | "assemble-m" :: _ => Driver.AssembleM.run stdin stdout; return 0
   | "assemble-h" :: _ => Driver.AssembleH.run stdin stdout; return 0
